@@ -3,5 +3,5 @@ From Coq Require Import QArith.
 From HV Require Import Base.Res Base.Str Model.Units.
 Extraction Language OCaml.
 Extraction "../ocaml/build/c11_model.ml"
-  force_types validate_units check_units_valid value_as_default_unit tag_unit_classes
+  force_types validate_units validate_units_string check_units_valid value_as_default_unit tag_unit_classes
   get_tag_units_portion cands factor_spec float_factor Qred mkSchema mkClass mkUnit mkMod mkUTag.
